@@ -306,3 +306,40 @@ func TestRepoDefectSyncCommitteeRotation(t *testing.T) {
 	}
 	t.Logf("defect present: %v; %s", present, c.Counters.Summary())
 }
+
+func TestByteMutationsNoPanic(t *testing.T) {
+	c, err := NewChain(Fast(1, 2, 3, 4), 32, "mixed", 8)
+	if err != nil {
+		t.Fatal(err)
+	}
+	acc, rej := 0, 0
+	for i := 0; i < 5*8; i++ {
+		s, err := c.NextSlot(nil)
+		if err != nil {
+			t.Fatal(err)
+		}
+		for _, mu := range c.ByteMutations(s, 12, int64(i)) {
+			mu := mu
+			o := c.ApplyMutant(s, &mu)
+			if o.Panic != nil {
+				t.Errorf("slot %d %s: panic %v", s.Slot, mu.Label, o.Panic)
+			} else if o.Accepted {
+				acc++
+			} else {
+				rej++
+			}
+		}
+	}
+	t.Logf("byte mutants: %d rejected, %d accepted", rej, acc)
+}
+
+func TestMainnetPresetShort(t *testing.T) {
+	if testing.Short() {
+		t.Skip()
+	}
+	cfg := Mainnet()
+	setForks(cfg.Spec, [4]common.Epoch{1, 1, 2, 2})
+	cfg.ID = "mainnet@1,1,2,2"
+	q := DefaultPolicy()
+	runChain(t, cfg, 64, "mixed", 3, 3*32, &q)
+}
